@@ -1,4 +1,6 @@
 import EdVerif.Proofs.ScalarMultTop
+import EdVerif.Proofs.Closing
+import EdVerif.Proofs.ScalarZ
 /-!
 C01 — `ScalarMult`, `ScalarBaseMult`, `VarTimeDoubleScalarBaseMult`, `MultiScalarMult` and
 `VarTimeMultiScalarMult` set the receiver to `Σ [k_i] P_i`; the result never depends on the prior
@@ -24,7 +26,7 @@ function on used, fresh and zero-value receivers and compares with the model).
 **Zero terms.** `C01_multiScalarMult_empty`, `C01_varTimeMultiScalarMult_empty`: for empty
 argument slices the result is a valid representation of the identity.
 
-Hypotheses `ff : FieldFacts` (field layer) and `sf : SqrtRatioDecodeFacts` (needed because the
+Hypotheses `fieldFacts : FieldFacts` (field layer) and `sqrtFacts : SqrtRatioDecodeFacts` (needed because the
 package-level `identity` / `generator` are obtained by decoding) are closed by the field layer.
 -/
 namespace EdVerif.Props
@@ -32,52 +34,50 @@ open EdVerif.Impl EdVerif.Prims EdVerif.Proofs EdVerif.Spec
 open Finset
 
 /-- `ScalarMult`: `v = [k] q` -/
-theorem C01_scalarMult (ff : FieldFacts) (sf : SqrtRatioDecodeFacts) {s : W4} {k : ℕ} {q : P3}
+theorem C01_scalarMult {s : W4} {k : ℕ} {q : P3}
     (hk : Scalar.bytes s = LEbytes k 32) (hk255 : k < 2 ^ 255) (hq : q.Valid) :
     ∃ r, Point.scalarMult s q = .ok r ∧ r.Valid ∧ r.toEd = k • q.toEd :=
-  Proofs.scalarMult_spec ff sf hk hk255 hq
+  Proofs.scalarMult_spec fieldFacts sqrtFacts hk hk255 hq
 
 /-- `ScalarBaseMult`: `v = [k] B` -/
-theorem C01_scalarBaseMult (ff : FieldFacts) (sf : SqrtRatioDecodeFacts) {s : W4} {k : ℕ}
+theorem C01_scalarBaseMult {s : W4} {k : ℕ}
     (hk : Scalar.bytes s = LEbytes k 32) (hk255 : k < 2 ^ 255) :
     ∃ r, Point.scalarBaseMult s = .ok r ∧ r.Valid ∧ r.toEd = k • basepoint :=
-  Proofs.scalarBaseMult_spec ff sf hk hk255
+  Proofs.scalarBaseMult_spec fieldFacts sqrtFacts hk hk255
 
 /-- `VarTimeDoubleScalarBaseMult`: `v = [ka] A + [kb] B` -/
-theorem C01_varTimeDouble (ff : FieldFacts) (sf : SqrtRatioDecodeFacts) {a b : W4} {ka kb : ℕ}
+theorem C01_varTimeDouble {a b : W4} {ka kb : ℕ}
     {A : P3} (ha : Scalar.bytes a = LEbytes ka 32) (ha255 : ka < 2 ^ 255)
     (hb : Scalar.bytes b = LEbytes kb 32) (hb255 : kb < 2 ^ 255) (hA : A.Valid) :
     ∃ r, Point.varTimeDoubleScalarBaseMult a A b = .ok r ∧ r.Valid ∧
       r.toEd = ka • A.toEd + kb • basepoint :=
-  Proofs.varTimeDouble_spec ff sf ha ha255 hb hb255 hA
+  Proofs.varTimeDouble_spec fieldFacts sqrtFacts ha ha255 hb hb255 hA
 
 /-- `MultiScalarMult`: `v = Σ_i [k_i] P_i` (`ks` is only read at indices `< ps.size`) -/
-theorem C01_multiScalarMult (ff : FieldFacts) (sf : SqrtRatioDecodeFacts)
-    (ss : Array W4) (ps : Array P3) (ks : Array ℕ) (hs : ss.size = ps.size)
+theorem C01_multiScalarMult (ss : Array W4) (ps : Array P3) (ks : Array ℕ) (hs : ss.size = ps.size)
     (hk : ∀ i < ps.size, Scalar.bytes ss[i]! = LEbytes ks[i]! 32 ∧ ks[i]! < 2 ^ 255)
     (hp : ∀ i < ps.size, (ps[i]!).Valid) :
     ∃ r, Point.multiScalarMult ss ps = .ok r ∧ r.Valid ∧
       r.toEd = ∑ i ∈ range ps.size, ks[i]! • (ps[i]!).toEd :=
-  Proofs.multiScalarMult_spec ff sf ss ps ks hs hk hp
+  Proofs.multiScalarMult_spec fieldFacts sqrtFacts ss ps ks hs hk hp
 
 /-- `VarTimeMultiScalarMult`: `v = Σ_i [k_i] P_i` -/
-theorem C01_varTimeMultiScalarMult (ff : FieldFacts)
-    (ss : Array W4) (ps : Array P3) (ks : Array ℕ) (hs : ss.size = ps.size)
+theorem C01_varTimeMultiScalarMult (ss : Array W4) (ps : Array P3) (ks : Array ℕ) (hs : ss.size = ps.size)
     (hk : ∀ i < ps.size, Scalar.bytes ss[i]! = LEbytes ks[i]! 32 ∧ ks[i]! < 2 ^ 255)
     (hp : ∀ i < ps.size, (ps[i]!).Valid) :
     ∃ r, Point.varTimeMultiScalarMult ss ps = .ok r ∧ r.Valid ∧
       r.toEd = ∑ i ∈ range ps.size, ks[i]! • (ps[i]!).toEd :=
-  Proofs.varTimeMultiScalarMult_spec ff ss ps ks hs hk hp
+  Proofs.varTimeMultiScalarMult_spec fieldFacts ss ps ks hs hk hp
 
 /-- zero terms: `MultiScalarMult` of empty slices is the identity -/
-theorem C01_multiScalarMult_empty (ff : FieldFacts) (sf : SqrtRatioDecodeFacts) :
+theorem C01_multiScalarMult_empty :
     ∃ r, Point.multiScalarMult #[] #[] = .ok r ∧ r.Valid ∧ r.toEd = 0 := by
-  simpa using C01_multiScalarMult ff sf #[] #[] #[] rfl (by simp) (by simp)
+  simpa using C01_multiScalarMult #[] #[] #[] rfl (by simp) (by simp)
 
 /-- zero terms: `VarTimeMultiScalarMult` of empty slices is the identity -/
-theorem C01_varTimeMultiScalarMult_empty (ff : FieldFacts) :
+theorem C01_varTimeMultiScalarMult_empty :
     ∃ r, Point.varTimeMultiScalarMult #[] #[] = .ok r ∧ r.Valid ∧ r.toEd = 0 := by
-  simpa using C01_varTimeMultiScalarMult ff #[] #[] #[] rfl (by simp) (by simp)
+  simpa using C01_varTimeMultiScalarMult #[] #[] #[] rfl (by simp) (by simp)
 
 /-! ### non-vacuity -/
 
@@ -90,30 +90,30 @@ theorem oneMont_bytes : Scalar.bytes oneMont = LEbytes 1 32 := by decide +kernel
 theorem zero_bytes : Scalar.bytes Scalar.rz = LEbytes 0 32 := by decide +kernel
 
 /-- the hypotheses are satisfiable: scalar `1`, point `generator` (valid by `generator_rep`) -/
-example (ff : FieldFacts) (sf : SqrtRatioDecodeFacts) :
+example :
     ∃ r, Point.scalarMult oneMont Point.generator = .ok r ∧ r.Valid ∧ r.toEd = basepoint := by
-  have h := C01_scalarMult ff sf oneMont_bytes (by norm_num) (generator_rep ff sf).valid
-  rw [(generator_rep ff sf).toEd_eq, one_smul] at h
+  have h := C01_scalarMult oneMont_bytes (by norm_num) (generator_rep fieldFacts sqrtFacts).valid
+  rw [(generator_rep fieldFacts sqrtFacts).toEd_eq, one_smul] at h
   exact h
 
-example (ff : FieldFacts) (sf : SqrtRatioDecodeFacts) :
+example :
     ∃ r, Point.scalarBaseMult oneMont = .ok r ∧ r.Valid ∧ r.toEd = basepoint := by
-  simpa using C01_scalarBaseMult ff sf oneMont_bytes (by norm_num)
+  simpa using C01_scalarBaseMult oneMont_bytes (by norm_num)
 
-example (ff : FieldFacts) (sf : SqrtRatioDecodeFacts) :
+example :
     ∃ r, Point.varTimeDoubleScalarBaseMult oneMont Point.generator Scalar.rz = .ok r ∧ r.Valid ∧
       r.toEd = basepoint := by
-  have h := C01_varTimeDouble ff sf oneMont_bytes (by norm_num) zero_bytes (by norm_num)
-    (generator_rep ff sf).valid
-  rw [(generator_rep ff sf).toEd_eq, one_smul, zero_smul, add_zero] at h
+  have h := C01_varTimeDouble oneMont_bytes (by norm_num) zero_bytes (by norm_num)
+    (generator_rep fieldFacts sqrtFacts).valid
+  rw [(generator_rep fieldFacts sqrtFacts).toEd_eq, one_smul, zero_smul, add_zero] at h
   exact h
 
 /-- two terms: `[1] B + [1] B = 2 B` -/
-example (ff : FieldFacts) (sf : SqrtRatioDecodeFacts) :
+example :
     ∃ r, Point.multiScalarMult #[oneMont, oneMont] #[Point.generator, Point.generator] = .ok r ∧
       r.Valid ∧ r.toEd = basepoint + basepoint := by
-  have hv := (generator_rep ff sf).valid
-  have he := (generator_rep ff sf).toEd_eq
+  have hv := (generator_rep fieldFacts sqrtFacts).valid
+  have he := (generator_rep fieldFacts sqrtFacts).toEd_eq
   have hget : ∀ {α : Type} [Inhabited α] (x : α) (i : ℕ), i < 2 → (#[x, x] : Array α)[i]! = x := by
     intro α _ x i hi
     interval_cases i <;> rfl
@@ -133,7 +133,7 @@ example (ff : FieldFacts) (sf : SqrtRatioDecodeFacts) :
     rw [e] at hi
     rw [hget _ i hi]
     exact hv
-  have h := C01_multiScalarMult ff sf _ _ _ hs hk hp
+  have h := C01_multiScalarMult _ _ _ hs hk hp
   rw [e, sum_range_succ, sum_range_one] at h
   simpa [he] using h
 
@@ -144,4 +144,50 @@ example (ff : FieldFacts) (sf : SqrtRatioDecodeFacts) :
 #print axioms C01_varTimeMultiScalarMult
 #print axioms C01_multiScalarMult_empty
 #print axioms C01_varTimeMultiScalarMult_empty
+
+/-! ### Closed forms: every valid scalar (`Scalar.Inv`, i.e. any scalar the API can produce — C07/C08/C12) -/
+
+theorem scalar_bytes_k {s : W4} (hs : Scalar.Inv s) :
+    Scalar.bytes s = LEbytes (Proofs.Scalar.toZ s).val 32 ∧ (Proofs.Scalar.toZ s).val < 2 ^ 255 := by
+  refine ⟨Proofs.C08_bytes s hs, ?_⟩
+  have h : (Proofs.Scalar.toZ s).val < EdVerif.L := ZMod.val_lt _
+  have hL : EdVerif.L < 2 ^ 255 := by unfold EdVerif.L; norm_num
+  omega
+
+/-- `ScalarMult`: the receiver becomes `[k]Q` with `k ∈ [0, l)` the integer the scalar encodes -/
+theorem C01_scalarMult_valid {s : W4} {q : P3} (hs : Scalar.Inv s) (hq : q.Valid) :
+    ∃ r, Point.scalarMult s q = .ok r ∧ r.Valid ∧ r.toEd = (Proofs.Scalar.toZ s).val • q.toEd :=
+  C01_scalarMult (scalar_bytes_k hs).1 (scalar_bytes_k hs).2 hq
+
+theorem C01_scalarBaseMult_valid {s : W4} (hs : Scalar.Inv s) :
+    ∃ r, Point.scalarBaseMult s = .ok r ∧ r.Valid ∧ r.toEd = (Proofs.Scalar.toZ s).val • basepoint :=
+  C01_scalarBaseMult (scalar_bytes_k hs).1 (scalar_bytes_k hs).2
+
+theorem C01_varTimeDouble_valid {a b : W4} {A : P3} (ha : Scalar.Inv a) (hb : Scalar.Inv b) (hA : A.Valid) :
+    ∃ r, Point.varTimeDoubleScalarBaseMult a A b = .ok r ∧ r.Valid ∧
+      r.toEd = (Proofs.Scalar.toZ a).val • A.toEd + (Proofs.Scalar.toZ b).val • basepoint :=
+  C01_varTimeDouble (scalar_bytes_k ha).1 (scalar_bytes_k ha).2 (scalar_bytes_k hb).1 (scalar_bytes_k hb).2 hA
+
+theorem C01_multiScalarMult_valid (ss : Array W4) (ps : Array P3) (hsz : ss.size = ps.size)
+    (hs : ∀ i < ps.size, Scalar.Inv ss[i]!) (hp : ∀ i < ps.size, (ps[i]!).Valid) :
+    ∃ r, Point.multiScalarMult ss ps = .ok r ∧ r.Valid ∧
+      r.toEd = ∑ i ∈ Finset.range ps.size, ((ss.map fun s => (Proofs.Scalar.toZ s).val)[i]!) • (ps[i]!).toEd := by
+  refine C01_multiScalarMult ss ps (ss.map fun s => (Proofs.Scalar.toZ s).val) hsz (fun i hi => ?_) hp
+  have hi' : i < ss.size := hsz ▸ hi
+  have e : (ss.map fun s => (Proofs.Scalar.toZ s).val)[i]! = (Proofs.Scalar.toZ ss[i]!).val := by
+    simp [hi']
+  rw [e]
+  exact scalar_bytes_k (hs i hi)
+
+theorem C01_varTimeMultiScalarMult_valid (ss : Array W4) (ps : Array P3) (hsz : ss.size = ps.size)
+    (hs : ∀ i < ps.size, Scalar.Inv ss[i]!) (hp : ∀ i < ps.size, (ps[i]!).Valid) :
+    ∃ r, Point.varTimeMultiScalarMult ss ps = .ok r ∧ r.Valid ∧
+      r.toEd = ∑ i ∈ Finset.range ps.size, ((ss.map fun s => (Proofs.Scalar.toZ s).val)[i]!) • (ps[i]!).toEd := by
+  refine C01_varTimeMultiScalarMult ss ps (ss.map fun s => (Proofs.Scalar.toZ s).val) hsz (fun i hi => ?_) hp
+  have hi' : i < ss.size := hsz ▸ hi
+  have e : (ss.map fun s => (Proofs.Scalar.toZ s).val)[i]! = (Proofs.Scalar.toZ ss[i]!).val := by
+    simp [hi']
+  rw [e]
+  exact scalar_bytes_k (hs i hi)
+
 end EdVerif.Props
